@@ -191,6 +191,8 @@ def check(log, tvals, final, quiescent, cond_handling=None):
             if e is not None and e[0] == 'exc':
                 nontrivial = True
                 handled = any(x[0] == 'proc' or (x[0] == 'cb' and x[2]) for x in lst)
+                if lb.startswith('Interruption#'):
+                    handled = True      # the kernel delivers it to its victim; what may escape is the victim's own end
                 if not handled and cond_handling is not None:
                     ch = cond_handling(lb, g)
                     if ch == 'handled':
